@@ -13,6 +13,7 @@ import Driver.Dominion
 import Driver.Manifest
 import Driver.Sampling
 import Driver.Phantoms
+import Driver.Overstatement
 open Lean Shangrla Shangrla.Drv
 
 def dispatch (g op : String) (a : Json) : R Json :=
@@ -27,6 +28,7 @@ def dispatch (g op : String) (a : Json) : R Json :=
   | "manifest" => ManifestH.handle op a
   | "sampling" => SamplingH.handle op a
   | "phantoms" => PhantomsH.handle op a
+  | "overstatement" => OverstatementH.handle op a
   | _ => throw s!"unknown group {g}"
 
 def handleLine (line : String) : String :=
